@@ -37,17 +37,21 @@ _ENV: dict[str, Any] = {}
 # ---------------------------------------------------------------------------------------------
 # implementation access + instrumentation (in-process wrappers, no source edits)
 def env():
+    """Observation points are call boundaries only: the `process` method of the lark PostLex objects the parser
+    module defines (stream entering / leaving), lark's InteractiveParser.feed_eof (the tree), and the store of the
+    returned model. ModelBuilder's private attributes are read only as an extra, finer check when they exist."""
     if _ENV:
         return _ENV
     from autobean_refactor import parser as P, models, printer
+    from lark.parsers.lalr_interactive_parser import InteractiveParser
     cap: dict[str, Any] = {}
 
-    def wrap_process(cls, is_postlex):
+    def wrap_process(cls):
         orig = cls.process
 
         def process(self, stream):
             ins, outs = [], []
-            cap['in'], cap['out'], cap['postlex'] = ins, outs, is_postlex
+            cap['in'], cap['out'] = ins, outs
 
             def tee():
                 for t in stream:
@@ -59,33 +63,40 @@ def env():
         process._verif_orig = orig
         cls.process = process
 
-    wrap_process(P.PostLex, True)
-    wrap_process(P.PostLexInline, False)
-    orig_build = P.ModelBuilder.build
+    for obj in list(vars(P).values()):
+        if isinstance(obj, type) and issubclass(obj, lark.lark.PostLex) and obj is not lark.lark.PostLex \
+                and 'process' in vars(obj):
+            wrap_process(obj)
+    orig_eof = InteractiveParser.feed_eof
 
-    def build(self, tree, model_type):
-        try:
-            cap['tokens'], cap['tree'] = list(self._tokens), tree
-            cap['index'] = dict(self._token_to_index)
-        except Exception as ex:  # the builder no longer has the attributes Builder.v was written for
-            cap['instr_error'] = repr(ex)
-        model = orig_build(self, tree, model_type)
-        try:
-            cap['built'] = list(self._built_tokens)
-            store = list(model.token_store)
-            idx = {id(t): i for i, t in enumerate(store)}
-            cap['root'] = (idx.get(id(model.first_token), -1), idx.get(id(model.last_token), -1))
-        except Exception as ex:
-            cap['instr_error'] = repr(ex)
-        return model
-    P.ModelBuilder.build = build
-    names = sorted(set(t.name for t in P.Parser()._lark.terminals) | set(models.TOKEN_MODELS) | set(FIXED))
+    def feed_eof(self, *a, **kw):
+        tree = orig_eof(self, *a, **kw)
+        cap['tree'] = tree
+        return tree
+    InteractiveParser.feed_eof = feed_eof
+
+    builder = getattr(P, 'ModelBuilder', None)
+    if builder is not None and hasattr(builder, 'build'):
+        orig_build = builder.build
+
+        def build(self, *a, **kw):
+            model = orig_build(self, *a, **kw)
+            try:  # optional finer check: private state, when it still has the names Builder.v was written from
+                cap['private'] = {'tokens': list(self._tokens), 'built': list(self._built_tokens)}
+            except Exception:
+                cap['private'] = None
+            return model
+        builder.build = build
+    ignored = getattr(P, '_IGNORED_TOKENS', None)
+    if ignored is None:  # fall back to the grammar's %ignore list
+        gram = (common.REPO / 'autobean_refactor' / 'beancount.lark').read_text()
+        ignored = re.findall(r'^%ignore\s+(\w+)', gram, re.M)
     code = dict(FIXED)
-    for n in names:
+    for n in sorted(set(models.TOKEN_MODELS) | set(ignored)):
         if n not in code:
             code[n] = 100 + len(code)
     _ENV.update(P=P, models=models, printer=printer, cap=cap, parser=P.Parser(), code=code,
-                ignored=sorted(P._IGNORED_TOKENS), targets=dict(models.TREE_MODELS))
+                ignored=sorted(ignored), targets=dict(models.TREE_MODELS))
     return _ENV
 
 
@@ -164,19 +175,32 @@ def observe(text: str, rule: str, acc: bool) -> Optional[Obs]:
     o = Obs()
     o.text, o.rule, o.acc, o.model = text, rule, acc, model
     o.is_file = target is e['models'].File
-    o.instr_error = cap.get('instr_error')
-    try:
-        o.postlex = cap['postlex']
-        o.lex_in = [(t.type, str(t)) for t in cap['in']]
-        o.lex_out = [(t.type, str(t)) for t in cap['tokens']]
-        o.out_teed = [(t.type, str(t)) for t in cap['out']]
-        o.tree = conv_tree(cap['tree'], cap['index'])
-        o.built = [(type(t).RULE, t.raw_text) for t in cap['built']]
-        o.root = cap['root']
-    except Exception as ex:
-        o.instr_error = o.instr_error or repr(ex)
-        o.lex_out = []
+    o.postlex = not target.INLINE                 # which post-lexer parse() selects (public class attribute)
     o.store = list(model.token_store)
+    o.observable = 'in' in cap and 'out' in cap and 'tree' in cap
+    o.private_mismatch = None
+    o.lex_out = []
+    if o.observable:
+        outs = cap['out']
+        index = {id(t): i for i, t in enumerate(outs)}
+        o.lex_in = [(t.type, str(t)) for t in cap['in']]
+        o.lex_out = [(t.type, str(t)) for t in outs]
+        o.tree = conv_tree(cap['tree'], index)
+    idx = {id(t): i for i, t in enumerate(o.store)}
+    try:
+        o.root = (idx.get(id(model.first_token), -1), idx.get(id(model.last_token), -1))
+    except Exception:
+        o.root = (-1, -1)
+    o.store_pairs = [(type(t).RULE, t.raw_text) for t in o.store]
+    # without claiming, the store right after parse() is what the builder handed to it
+    o.built, o.built_root = (o.store_pairs, o.root) if not acc else (None, None)
+    priv = cap.get('private')
+    o.has_private = bool(priv)
+    if priv and o.observable:
+        if [id(t) for t in priv['tokens']] != [id(t) for t in cap['out']]:
+            o.private_mismatch = 'ModelBuilder._tokens is not the stream leaving PostLex.process'
+        elif not acc and [id(t) for t in priv['built']] != [id(t) for t in o.store]:
+            o.private_mismatch = 'the store does not hold ModelBuilder._built_tokens in order'
     return o
 
 
@@ -188,8 +212,8 @@ def coq_case(o: Obs, spans) -> str:
         common.coq_zlist(tcode(n) for n in e['ignored']),
         common.coq_zlist(tcode(n) for n in sorted(e['models'].TOKEN_MODELS)),
         '(' + o.tree + ')', lex(o.built), common.coq_bool(o.is_file),
-        f'({common.coq_z(o.root[0])}, {common.coq_z(o.root[1])})',
-        lex((type(t).RULE, t.raw_text) for t in o.store),
+        f'({common.coq_z(o.built_root[0])}, {common.coq_z(o.built_root[1])})',
+        lex(o.store_pairs),
         common.coq_list(f'({common.coq_z(a)}, {common.coq_z(b)})' for a, b in spans),
         common.coq_bool(o.acc)]) + ')')
 
@@ -246,19 +270,26 @@ def monitor(o: Obs):
 
 # ---------------------------------------------------------------------------------------------
 # generators
+# non-ASCII pools deliberately contain text that is not stable under NFC/NFD/NFKC/NFKD: decomposed accents,
+# conjoining Hangul jamo, singletons (U+212B, U+2126), compatibility characters, combining marks at token starts,
+# U+FEFF inside strings
 ACCOUNTS = ['Assets:Foo', 'Expenses:Food:Café', 'Liabilities:CC-1', 'Income:A:B:C9', '资产:现金',
-            'Equity:Opening-Balances']
+            'Equity:Opening-Balances', 'Expenses:Cafe\u0301', 'Assets:\u212bngstrom:\u1112\u1161\u11ab',
+            'Income:\ufb01n\uff21']
 CURS = ['USD', 'EUR', 'GOOG', 'A1', "B.C'D-E"]
 STRINGS = ['"foo"', '""', '"a \\" b"', '"multi\nline"', '"ü € \U0001d11e"', '"x;y"', '"tab\there"',
-           '"back\\\\"', '"cr\r\nlf"']
+           '"back\\\\"', '"cr\r\nlf"', '"e\u0301 \u1100\u1161 \u212b \u2126"', '"\u0301starts with a mark"',
+           '"a\ufeffb \u2460 \ufb01 \uff21"', '"\u00e9 vs e\u0301"']
 TAGS = ['#tag', '^link', '#a-b_c/d.e', '^2000-01']
 KEYS = ['aa:', 'key-1:', 'some_key:', 'zZ9:']
 DATES = ['2000-01-01', '2012/2/3', '9999-12-31', '1999-1/09']
 NUMS = ['1', '1.5', '1,000.00', '10.', '0.0001', '123456789']
-INLINE_COMMENTS = ['; c', ';', ';; x ü', '; a ; b', ';\t tab ', '; end\u00a0']
-IGNORED_LINES = ['* Heading', '** sub', '# hash', ': colon', '! bang', 'Something else', '*', 'P odd']
+INLINE_COMMENTS = ['; c', ';', ';; x ü', '; a ; b', ';\t tab ', '; end\u00a0', ';\u0301 mark first e\u0301',
+                   '; \u212b \u1100\u1161\u11a8 \ufeff']
+IGNORED_LINES = ['* Heading', '** sub', '# hash', ': colon', '! bang', 'Something else', '*', 'P odd',
+                 '* He\u0301ading \u212b', '*\u0301', '# \u1100\u1161 \ufb01']
 BLOCK_COMMENT_BODIES = ['; c', ';', ';;; 注释', '; x "y" {z}', ';2000-01-01 open A:B', '; trailing blanks  ', ';\t',
-                        '; \u00a0nbsp\u3000']
+                        '; \u00a0nbsp\u3000', '; de\u0301compose\u0301 \u212b\u2126', ';\u0308\u1100\u1161', '; \ufeffbom \u2460']
 
 
 class Gen:
@@ -488,6 +519,19 @@ class Gen:
             return self.nl().join(lines)
         raise KeyError(rule)
 
+    def multiline(self, text):
+        """Break an inline snippet over several lines (indented continuation) at blanks or around punctuation."""
+        brk = lambda: self.nl() + self.c(['    ', '  ', '\t', ' '])
+        if ' ' in text:
+            parts = text.split(' ')
+            k = self.r.randrange(1, len(parts))
+            return ' '.join(parts[:k]) + brk() + ' '.join(parts[k:])
+        for ch in '+-*/,#{}()@~':
+            if ch in text:
+                i = text.index(ch)
+                return (text[:i + 1] + brk() + text[i + 1:]) if i + 1 < len(text) else (text[:i] + brk() + text[i:])
+        return text
+
     def with_outside_trivia(self, rule, text, inline):
         """Accepted text outside the model's own span (the D12 class)."""
         if inline:
@@ -515,6 +559,11 @@ CORPUS = [
     ('file', '2000-01-01 *\n  aa: 1\n    ; deeper\n  Assets:Foo\n      ; deeper still\n    bb: 2\n ; shallower\n'),
     ('file', '\n\n  \n; a\n\n; b\n  ; c\n; d'), ('file', '* h\r\r\n\r\r\n; c\r\r\n'),
     ('file', '2000-01-01 open Assets:Foo USD , EUR,GBP   "STRICT"   ; c  \n'),
+    ('number_expr', '1 +\n    2'), ('number_expr', '(\n  1\n)'), ('amount', '1\nUSD'), ('amount', '1 \r\n\tUSD'),
+    ('cost_spec', '{1 USD,\n    2000-01-01}'), ('cost_spec', '{{\n  1 USD\n}}'), ('unit_cost', '{1 USD,\n    "x"}'),
+    ('total_cost', '{{1 # 2 USD,\n  *}}'), ('unit_price', '@\n  1 USD'), ('total_price', '@@ 1\n  USD'),
+    ('tolerance', '~\n 1'), ('compound_amount', '1 #\n  2 USD'), ('number_paren_expr', '(1 +\n  2)'),
+    ('number_unary_expr', '-\n  1'), ('number_expr', '1 + ; c\n  2'), ('number_expr', '1 +\n; block\n  2'),
     ('posting', '    Assets:Foo  1 USD'), ('posting', 'Assets:Foo'), ('meta_item', '  aa: 1'),
 ]
 
@@ -540,6 +589,8 @@ def gen_inputs(ctx):
             yield rule, t, 'snippet'
             if k % 3 == 0:
                 yield rule, g.with_outside_trivia(rule, t, inline), 'snippet+outside'
+            if inline and '"' not in t:
+                yield rule, g.multiline(t), 'snippet+multiline'
 
 
 # ---------------------------------------------------------------------------------------------
@@ -651,40 +702,22 @@ def large_inputs(ctx):
 
 # ---------------------------------------------------------------------------------------------
 def tie(ctx):
-    """Pin the parts of parser.py that PostLex.v / Builder.v transcribe; fail closed."""
+    """Behavioural ties only fail the check: split3 against the regex object the code uses, the ignored set, the
+    disjointness node_kind relies on. The source-text pins are recorded as notes (a harmless rewrite moves them;
+    whether Builder.v / PostLex.v still describe the code is decided by the per-case correspondence)."""
     e = env()
     src_path = common.REPO / 'autobean_refactor' / 'parser.py'
     try:
-        mod = ast.parse(src_path.read_text())
+        src = src_path.read_text()
     except Exception as ex:
         ctx.fail('tie', 'parser-unreadable', f'cannot read parser.py: {ex}')
         return
-    consts: dict[str, Any] = {}
-    regex = None
-    for cls in [n for n in mod.body if isinstance(n, ast.ClassDef) and n.name == 'PostLex']:
-        for st in cls.body:
-            if isinstance(st, ast.Assign) and len(st.targets) == 1 and isinstance(st.targets[0], ast.Name):
-                name = st.targets[0].id
-                if isinstance(st.value, ast.Constant):
-                    consts[name] = st.value.value
-                elif name == '_NEWLINE_INDENT_COMMENT_SPLIT_RE' and isinstance(st.value, ast.Call):
-                    args = st.value.args
-                    flags = ast.unparse(args[1]) if len(args) > 1 else ''
-                    regex = (args[0].value if args and isinstance(args[0], ast.Constant) else None, flags)
-    want = {'_NEWLINE_INDENT_COMMENT': '_NEWLINE_INDENT_COMMENT', '_NEWLINE': '_NEWLINE', '_EOL': 'EOL',
-            '_INDENT_MARK': 'INDENT_MARK', '_DEDENT_MARK': 'DEDENT_MARK', '_INDENT': 'INDENT',
-            '_BLOCK_COMMENT': 'BLOCK_COMMENT'}
-    if consts != want:
-        ctx.fail('tie', 'postlex-constants', 'the terminal names PostLex emits are not the ones PostLex.v was written for',
-                 {'found': consts})
-    if regex != (r'([\r\n]*)([ \t]*)(;.*)?', 're.S'):
-        ctx.fail('tie', 'postlex-regex', 'the split regex is not the one split3 (PostLex.v) was written for',
-                 {'found': list(regex) if regex else None})
-    src = src_path.read_text()
-    for needle in ["child.data in ('repeated', 'repeated_sep')", "child.data in ('indent', 'indent2')",
-                   "child.data.endswith('_')", "token.type == 'INDENT'"]:
-        if needle not in src:
-            ctx.fail('tie', 'builder-dispatch', f'parser.py no longer contains `{needle}` (Builder.v / node_kind)')
+    moved = [needle for needle in ["child.data in ('repeated', 'repeated_sep')", "child.data in ('indent', 'indent2')",
+                                   "child.data.endswith('_')", "token.type == 'INDENT'",
+                                   "r'([\\r\\n]*)([ \\t]*)(;.*)?', re.S"] if needle not in src]
+    if moved:
+        ctx.count('source_pins_moved', len(moved))
+        ctx.notes.append(f'parser.py no longer contains the literal text {moved} (informational)')
     # the node kinds must be disjoint for node_kind's single classification to equal the source's test order
     for k in e['models'].TREE_MODELS:
         if k.endswith('_') or k in ('repeated', 'repeated_sep', 'indent', 'indent2'):
@@ -696,7 +729,12 @@ def tie(ctx):
         ctx.fail('tie', 'ignored-set', '_IGNORED_TOKENS differs from the %ignore list of beancount.lark',
                  {'grammar': ign, 'runtime': e['ignored']})
     # split3 against CPython re on generated strings (the regex engine is an oracle)
-    rx = re.compile(r'([\r\n]*)([ \t]*)(;.*)?', re.S)
+    rx = getattr(getattr(e['P'], 'PostLex', None), '_NEWLINE_INDENT_COMMENT_SPLIT_RE', None)
+    if not isinstance(rx, re.Pattern):
+        ctx.count('split_regex_unobservable')
+        ctx.notes.append('PostLex._NEWLINE_INDENT_COMMENT_SPLIT_RE not found: split3 is validated through the stream '
+                         'correspondence only')
+        return
     alphabet = ['\r', '\n', ' ', '\t', ';', 'a', 'é']
     strs = set()
     for n in range(0, 5):
@@ -750,7 +788,20 @@ def shrink_text(pred, text: str, budget: int = 40, seconds: float = 120) -> str:
     return ''.join(lines)
 
 
+def observe_full(text: str, rule: str, acc: bool) -> Optional[Obs]:
+    """observe() with the pre-claim built list / root span filled in for auto_claim_comments=True as well."""
+    o = observe(text, rule, acc)
+    if o is not None and acc:
+        o0 = observe(text, rule, False)
+        if o0 is None:
+            return None
+        o.built, o.built_root = o0.built, o0.built_root
+    return o
+
+
 def coq_code_of(ctx, o: Obs, spans) -> int:
+    if o is None or not o.observable or o.built is None:
+        return -1
     out = ctx.coq_eval(PREAMBLE, f'check_code {coq_case(o, spans)}')
     m = re.search(r'=\s*(-?\d+)', out)
     return int(m.group(1)) if m else -1
@@ -771,6 +822,7 @@ CODE_WHAT = {1: 'H-tile fails: the lexeme values entering PostLex do not concate
 def run_cases(ctx, inputs, record=True):
     cases, metas = [], []
     seen_sig: dict[str, int] = {}
+    pre = None
     for rule, text, origin in inputs:
         large = origin.startswith('large')
         for acc in (False, True):
@@ -809,14 +861,26 @@ def run_cases(ctx, inputs, record=True):
             if large and (origin != 'large+coq' or acc):
                 ctx.count('large_monitor_only')
                 continue
-            if o.instr_error:
-                ctx.fail('tie', 'instrumentation', 'PostLex/ModelBuilder can no longer be observed the way Builder.v '
-                         'assumes (attributes _tokens/_token_to_index/_built_tokens, process())',
-                         {'error': o.instr_error, 'text': text, 'target': rule, 'auto_claim_comments': acc})
+            if not o.has_private:
+                if not ctx.counters.get('private_state_unobservable'):
+                    ctx.notes.append('ModelBuilder private state (_tokens/_built_tokens) not present under these names: '
+                                     'the finer identity check is skipped; the correspondence uses call boundaries only')
+                ctx.count('private_state_unobservable')
+            if not o.observable:
+                if not ctx.counters.get('call_boundaries_unobservable'):
+                    ctx.notes.append('PostLex.process / InteractiveParser.feed_eof were not called by parse(): the '
+                                     'builder correspondence is skipped for such cases (monitors still run)')
+                ctx.count('call_boundaries_unobservable')
                 continue
-            if o.out_teed != o.lex_out:
-                ctx.fail('corr', 'stream-not-kept', 'ModelBuilder did not receive exactly the stream leaving '
-                         'PostLex.process', {'text': text, 'target': rule, 'auto_claim_comments': acc})
+            if o.private_mismatch:
+                ctx.fail('corr', 'stream-not-kept', o.private_mismatch,
+                         {'text': text, 'target': rule, 'auto_claim_comments': acc})
+            if acc:
+                if pre is None or pre[0] != (rule, text):
+                    continue
+                o.built, o.built_root = pre[1], pre[2]
+            else:
+                pre = ((rule, text), o.built, o.built_root)
             cases.append(coq_case(o, spans))
             metas.append((rule, text, acc))
     # chunk by size: keep each generated file below ~250 KB
@@ -846,11 +910,11 @@ def run_cases(ctx, inputs, record=True):
         if reported >= 3:
             break
         rule, text, acc = metas[i]
-        o = observe(text, rule, acc)
+        o = observe_full(text, rule, acc)
         code = coq_code_of(ctx, o, monitor(o)[1])
 
         def still(t):
-            oo = observe(t, rule, acc)
+            oo = observe_full(t, rule, acc)
             return oo is not None and coq_code_of(ctx, oo, monitor(oo)[1]) == code
         small = shrink_text(still, text, budget=25, seconds=60) if code > 0 and len(text) < 20000 else text
         ctx.fail('corr', f'parse-correspondence:{code}', CODE_WHAT.get(code, 'model and implementation disagree'),
@@ -896,7 +960,7 @@ def replay(ctx: common.Ctx, path: str) -> int:
         print(json.dumps(f, indent=1)[:3000])
         return 1
     text, rule, acc = w['text'], w['target'], w['auto_claim_comments']
-    o = observe(text, rule, acc)
+    o = observe_full(text, rule, acc)
     if o is None:
         print(f'parse() rejects the text for target {rule}: {env()["cap"].get("reject")}')
         return 1
